@@ -30,6 +30,7 @@ PROPS = 'EdbVerif/Props/C20.lean'
 REQUIRED = [
     'EdbVerif.C20.topo_perm', 'EdbVerif.C20.topo_hard', 'EdbVerif.C20.topo_cycle',
     'EdbVerif.C20.topo_soft', 'EdbVerif.C20.topo_unres',
+    'EdbVerif.C20.oset_nodup', 'EdbVerif.C20.oset_mem', 'EdbVerif.C20.oset_order', 'EdbVerif.C20.oset_ofList',
 ]
 
 
@@ -383,12 +384,130 @@ def parse_order(out):
     return [] if body == '-' else [int(x) for x in body.split(',')]
 
 
+# ------------------------------------------------------- OrderedSet histories
+# real edb.common.ordered.OrderedSet vs EdbVerif.OrdSet (Model/OrdSet.lean), driver C20os
+OS_OPS = 'aaaddduumixc'
+
+
+def gen_oset_history(rng, nkeys, nops):
+    ops = []
+    for _ in range(nops):
+        k = rng.choice(OS_OPS)
+        if k in 'ad':
+            ops.append((k, [rng.randrange(nkeys)]))
+        elif k == 'c':
+            ops.append((k, []))
+        else:
+            ops.append((k, [rng.randrange(nkeys + 1) for _ in range(rng.randrange(0, 5))]))
+    return ops
+
+
+def oset_line(ops):
+    return ';'.join(f"{k} {','.join(map(str, a)) if a else '-'}" for k, a in ops)
+
+
+def run_real_oset(ops, OrderedSet, wrap):
+    """returns (outputs after each op, oracle complaints)"""
+    s = OrderedSet()
+    outs, bad = [], []
+    for k, a in ops:
+        before = list(s)
+        arg = OrderedSet(a) if wrap else list(a)
+        try:
+            if k == 'a':
+                s.add(a[0])
+            elif k == 'd':
+                s.discard(a[0])
+            elif k == 'u':
+                s.update(arg)
+            elif k == 'm':
+                s.difference_update(arg)
+            elif k == 'i':
+                s.intersection_update(arg)
+            elif k == 'x':
+                s.symmetric_difference_update(arg)
+            elif k == 'c':
+                s.clear()
+        except Exception as e:      # noqa: the real container must not raise on these
+            outs.append('exc:' + type(e).__name__)
+            bad.append(f'{k} {a} raised {type(e).__name__}: {e}')
+            break
+        after = list(s)
+        outs.append(','.join(map(str, after)) if after else '-')
+        # the property's own reading for the container: each key once, survivors keep their order,
+        # newcomers come after every survivor, a second iteration gives the same order
+        if len(after) != len(set(after)):
+            bad.append(f'{k} {a}: iteration yields a key twice: {after}')
+        surv = [y for y in after if y in before]
+        if surv != [y for y in before if y in after]:
+            bad.append(f'{k} {a}: surviving keys changed their relative order: {before} -> {after}')
+        if surv != after[:len(surv)]:
+            bad.append(f'{k} {a}: a new key precedes an old one: {before} -> {after}')
+        if list(s) != after or list(reversed(s)) != after[::-1] or len(s) != len(after) \
+                or list(s.copy()) != after or any((y in s) != (y in after) for y in range(8)):
+            bad.append(f'{k} {a}: iteration / reversed / len / copy / contains disagree on {after}')
+    return outs, bad
+
+
+def ordset_stage(ctx, OrderedSet):
+    rng = ctx.rng
+    hs = []
+    if ctx.replay:
+        rp = json.load(open(ctx.replay))
+        for f in rp['failures']:
+            d = f.get('detail')
+            if isinstance(d, dict) and 'oset_ops' in d:
+                hs.append(([(k, list(a)) for k, a in d['oset_ops']], bool(d.get('wrap'))))
+        if not hs:
+            return {}
+    else:
+        # exhaustive: every history of <= 3 single-key ops / 2-element bulk ops over 2 keys
+        small = [('a', [0]), ('a', [1]), ('d', [0]), ('d', [1]), ('u', [1, 0]), ('m', [0]), ('i', [1]),
+                 ('x', [0, 1]), ('x', [1, 1]), ('c', [])]
+        import itertools
+        for n in (1, 2, 3):
+            for h in itertools.product(small, repeat=n):
+                hs.append(([(k, list(a)) for k, a in h], False))
+        for _ in range(ctx.budget(4000, 80000)):
+            hs.append((gen_oset_history(rng, rng.choice([2, 3, 5, 8]), rng.randrange(1, 14)),
+                       rng.random() < 0.3))
+    lines, reals = [], []
+    for ops, wrap in hs:
+        outs, bad = run_real_oset(ops, OrderedSet, wrap)
+        lines.append(oset_line(ops))
+        reals.append(('|'.join(outs), bad))
+    model = ctx.driver('C20os', lines)
+    if len(model) != len(lines):
+        raise core.Infra(f'driver C20os returned {len(model)} lines for {len(lines)}')
+    n_dis = n_bad = 0
+    ophist = {}
+    for (ops, wrap), line, (real, bad), m in zip(hs, lines, reals, model):
+        for k, _ in ops:
+            ophist[k] = ophist.get(k, 0) + 1
+        for b in bad[:1]:
+            n_bad += 1
+            if n_bad <= MAX_CORR:
+                ctx.fail(f'oracle:oset:{line}', 'OrderedSet breaks the insertion-order law the ordering relies on: '
+                         + b, {'oset_ops': ops, 'wrap': wrap, 'real': real, 'model': m})
+        if real != m:
+            n_dis += 1
+            if not bad and n_dis <= MAX_CORR:
+                ctx.fail(f'corr:oset:{line}', 'model and implementation disagree (property holds on this input)',
+                         {'oset_ops': ops, 'wrap': wrap, 'real': real, 'model': m,
+                          'stream': 'edb.common.ordered.OrderedSet vs EdbVerif.OrdSet.step'}, no_input=True)
+    ctx.log(f'{len(hs)} OrderedSet histories: {n_dis} disagreements, {n_bad} oracle failures')
+    return {'histories': len(hs), 'distinct': len(set(lines)), 'op_histogram': ophist,
+            'disagreements_model_vs_impl': n_dis, 'oracle_failures': n_bad,
+            'exhaustive_small_scope': 'all histories of <= 3 ops from a 10-op alphabet over 2 keys',
+            'sample': lines[len(lines) // 2] + ' => ' + reals[len(lines) // 2][0] if lines else None}
+
+
 # ---------------------------------------------------------------------- run
 def run(ctx: core.Ctx):
     from edb.common import topological
     from edb.common.ordered import OrderedSet
 
-    proved = ctx.proof_stage(PROPS, ['EdbVerif.Props.C20', 'Driver.C20'], required=REQUIRED)
+    proved = ctx.proof_stage(PROPS, ['EdbVerif.Props.C20', 'Driver.C20', 'Driver.C20os'], required=REQUIRED)
     ctx.log('proof stage:', 'ok' if proved else ctx.proof['broken'])
 
     cases = []          # in-process:    (case, mode, stream)
@@ -544,10 +663,12 @@ def run(ctx: core.Ctx):
                              'sort_ex once per PYTHONHASHSEED in a fresh interpreter'})
     if xcases:
         ctx.log(f'cross-process: {len(x_nondet)} hash-seed dependent, {x_dis} deviating from the given order')
+    oset_cov = ordset_stage(ctx, OrderedSet)
     if not proved:
         ctx.proof_broken_verdict()
 
     ctx.cov.update({
+        'ordered_set': oset_cov,
         'evaluations': len(cases) + len(xcases) * len(seeds),
         'distinct_nontrivial': nontrivial + x_nontrivial,
         'rule': 'graphs over 4 edge kinds: exhaustive 2-node graphs (all 2^16 edge sets x 2 key orders; '
@@ -588,6 +709,10 @@ def run(ctx: core.Ctx):
     ]
     ctx.trusted_base += [
         'hand-written model EdbVerif/Model/Topo.lean of sort_ex; tied by the differential run above',
+        'hand-written model EdbVerif/Model/OrdSet.lean of edb/common/ordered.py::OrderedSet (add, discard, update, '
+        'clear and the MutableSet in-place operators with a list / OrderedSet argument; `replace`, `__eq__`, '
+        '`x op= x` with the set itself and arguments that are plain sets are not modelled); tied by the '
+        'history differential (driver C20os)',
         'harness/props/c20.py generators, oracle and canonicalisation; harness/props/c20_child.py '
         '(graph construction in the styles of the real callers, key renaming nat <-> str / tuple of str)',
         'PYTHONHASHSEED 0 / 1 / one drawn from VERIF_SEED stand for "different compiler worker processes"',
